@@ -277,7 +277,8 @@ def hook_check(ctx, case):
     ctx.count("hook_checked_programs")
 
 
-INV_SHAPES = ("init", "noinit", "noinit-sub", "tuple-sub", "namedtuple", "slots", "dataclass", "init-sub")
+INV_SHAPES = ("init", "noinit", "noinit-sub", "tuple-sub", "namedtuple", "slots", "dataclass", "init-sub", "prop-extended-sub",
+              "prop-redefined-sub")
 CHECK_ONS = ("default", "CALL", "SETATTR", "ALL")
 
 
@@ -337,6 +338,32 @@ def inv_cells(ctx):
             if shape == "noinit-sub":
                 class K(K):  # noqa
                     pass
+        elif shape in ("prop-extended-sub", "prop-redefined-sub"):
+            class B(icontract.DBC):
+                def __init__(self):
+                    object.__setattr__(self, "x", 0)
+
+                def m(self):
+                    return 1
+
+                @property
+                def p(self):
+                    return 1
+            B = deco(B)
+            if shape == "prop-extended-sub":
+                class K(B):
+                    @B.p.setter
+                    def p(self, value):  # the inherited property gets a setter in the sub-class
+                        pass
+            else:
+                class K(B):
+                    @property
+                    def p(self):
+                        return 2
+
+                    @p.setter
+                    def p(self, value):
+                        pass
         elif shape == "tuple-sub":
             class K(tuple):
                 def m(self):
@@ -397,9 +424,15 @@ def inv_cells(ctx):
             inst = K(*args)
             for t1, t2 in itertools.product((True, False), repeat=2):
                 cell = {"inv_cell": [shape, on1, on2, t1, t2]}
+                # assigning to a property is an attribute assignment if some invariant asks for those (the setter is then a
+                # nested call on the object), otherwise a call of the setter
+                set_event = E.SETATTR if any(E.SETATTR in i.check_on for i in K.__invariants__) else E.CALL
                 for opname, event, fn in (("construct", None, lambda: K(*args)), ("call", E.CALL, lambda: inst.m()),
-                                          ("setattr", E.SETATTR, lambda: setattr(inst, "x", 5))):
+                                          ("setattr", E.SETATTR, lambda: setattr(inst, "x", 5)),
+                                          ("property-get", E.CALL, lambda: inst.p), ("property-set", set_event, lambda: setattr(inst, "p", 5))):
                     if opname == "setattr" and shape in ("tuple-sub", "namedtuple"):
+                        continue
+                    if opname.startswith("property") and not shape.startswith("prop-"):
                         continue
                     T[1], T[2] = t1, t2
                     try:
